@@ -3,6 +3,7 @@
 package vectorstore
 
 import (
+	"github.com/semafind/semadb/diskstore"
 	"github.com/semafind/semadb/distance"
 	"github.com/semafind/semadb/models"
 )
@@ -64,4 +65,148 @@ func VerifProductDistances(numSubVectors, numCentroids, subVectorLen int, distFn
 	fromFloat = pq.DistanceFromFloat(x)(py)
 	fromPoint = pq.DistanceFromPoint(px)(py)
 	return fromFloat, fromPoint
+}
+
+// ---------------------------
+
+// VerifFittedProduct is a product quantizer that went through the real life
+// cycle: built by newProductQuantizer, filled through Set, fitted by Fit (real
+// k-means, real table fill). It exposes what Fit left behind.
+type VerifFittedProduct struct {
+	pq *productQuantizer
+	// The metric the quantizer settled on (cosine is mapped to euclidean)
+	Metric                                    string
+	NumSubVectors, NumCentroids, SubVectorLen int
+}
+
+// VerifProductFit builds a product quantizer over an in-memory bucket, stores
+// the vectors under ids 1..len(vectors) and calls Fit with the trigger
+// threshold set to the number of vectors. A non-nil distFn replaces the
+// quantizer's sub-vector distance (e.g. by the pure Go loop) before anything is
+// stored. Fitted() tells whether Fit actually trained the quantizer.
+func VerifProductFit(metric string, numSubVectors, numCentroids, vectorLen int, vectors [][]float32, distFn distance.FloatDistFunc) (*VerifFittedProduct, error) {
+	params := models.ProductQuantizerParameters{NumCentroids: numCentroids, NumSubVectors: numSubVectors, TriggerThreshold: len(vectors)}
+	pq, err := newProductQuantizer(diskstore.NewMemBucket(false), metric, params, vectorLen)
+	if err != nil {
+		return nil, err
+	}
+	if distFn != nil {
+		pq.distFn = distFn
+	}
+	for i, v := range vectors {
+		if _, err := pq.Set(uint64(i+1), v); err != nil {
+			return nil, err
+		}
+	}
+	if err := pq.Fit(); err != nil {
+		return nil, err
+	}
+	return &VerifFittedProduct{pq: pq, Metric: pq.distFnName, NumSubVectors: numSubVectors, NumCentroids: numCentroids, SubVectorLen: pq.subVectorLen}, nil
+}
+
+func (v *VerifFittedProduct) Fitted() bool { return len(v.pq.flatCentroids) != 0 }
+
+// FlatCentroids and CentroidDists return copies of the two tables.
+func (v *VerifFittedProduct) FlatCentroids() []float32 {
+	return append([]float32(nil), v.pq.flatCentroids...)
+}
+
+func (v *VerifFittedProduct) CentroidDists() []float32 {
+	return append([]float32(nil), v.pq.centroidDists...)
+}
+
+func (v *VerifFittedProduct) point(id uint64) *productQuantizedPoint {
+	p, err := v.pq.items.Get(id)
+	if err != nil {
+		panic(err)
+	}
+	return p
+}
+
+// Codes returns a copy of the centroid ids of a stored point.
+func (v *VerifFittedProduct) Codes(id uint64) []uint8 {
+	return append([]uint8(nil), v.point(id).CentroidIds...)
+}
+
+// Set stores one more point (after Fit its centroid ids come from encode).
+func (v *VerifFittedProduct) Set(id uint64, vector []float32) error {
+	_, err := v.pq.Set(id, vector)
+	return err
+}
+
+// FromFloat is DistanceFromFloat(x) applied to the stored point idY.
+func (v *VerifFittedProduct) FromFloat(x []float32, idY uint64) float32 {
+	return v.pq.DistanceFromFloat(x)(v.point(idY))
+}
+
+// FromPoint is DistanceFromPoint(stored point idX) applied to the stored point idY.
+func (v *VerifFittedProduct) FromPoint(idX, idY uint64) float32 {
+	return v.pq.DistanceFromPoint(v.point(idX))(v.point(idY))
+}
+
+// ---------------------------
+
+// VerifFittedBinary is a binary quantizer without a preset threshold that went
+// through newBinaryQuantizer, Set and Fit.
+type VerifFittedBinary struct {
+	bq *binaryQuantizer
+}
+
+// VerifBinaryFit stores the vectors under ids 1..len(vectors) in a binary
+// quantizer with no threshold given and calls Fit with the trigger threshold
+// set to the number of vectors.
+func VerifBinaryFit(bitMetric, floatMetric string, vectorLen int, vectors [][]float32) (*VerifFittedBinary, error) {
+	floatFn, err := distance.GetFloatDistanceFn(floatMetric)
+	if err != nil {
+		return nil, err
+	}
+	params := models.BinaryQuantizerParamaters{TriggerThreshold: len(vectors), DistanceMetric: bitMetric}
+	bq, err := newBinaryQuantizer(diskstore.NewMemBucket(false), floatFn, params, vectorLen)
+	if err != nil {
+		return nil, err
+	}
+	for i, v := range vectors {
+		if _, err := bq.Set(uint64(i+1), v); err != nil {
+			return nil, err
+		}
+	}
+	if err := bq.Fit(); err != nil {
+		return nil, err
+	}
+	return &VerifFittedBinary{bq: bq}, nil
+}
+
+func (v *VerifFittedBinary) point(id uint64) *binaryQuantizedPoint {
+	p, err := v.bq.items.Get(id)
+	if err != nil {
+		panic(err)
+	}
+	return p
+}
+
+// Threshold returns a copy of the threshold vector (nil: not fitted).
+func (v *VerifFittedBinary) Threshold() []float32 {
+	if v.bq.threshold == nil {
+		return nil
+	}
+	return append([]float32{}, v.bq.threshold...)
+}
+
+// BinaryVector returns a copy of the stored encoding of a point.
+func (v *VerifFittedBinary) BinaryVector(id uint64) []uint64 {
+	return append([]uint64(nil), v.point(id).BinaryVector...)
+}
+
+// Set stores one more point.
+func (v *VerifFittedBinary) Set(id uint64, vector []float32) error {
+	_, err := v.bq.Set(id, vector)
+	return err
+}
+
+func (v *VerifFittedBinary) FromFloat(x []float32, idY uint64) float32 {
+	return v.bq.DistanceFromFloat(x)(v.point(idY))
+}
+
+func (v *VerifFittedBinary) FromPoint(idX, idY uint64) float32 {
+	return v.bq.DistanceFromPoint(v.point(idX))(v.point(idY))
 }
